@@ -62,7 +62,14 @@ def run(chk, tier):
     nrf, rfound = relfail.run(chk, P, ["distances.c"])
     chk.floor("R-RELFAIL", "call sites of release-on-failure functions", nrf, 4)
     chk.floor("R-RELFAIL", "release-on-failure functions discovered", len(rfound), 2)
-    chk.decided += ['objs, indexes, different_types and values are compacted together when objects disappear',
+    chk.rule("R-CONSUMED", "a pointer handed to a function that takes ownership of it (discovered per function and parameter by exploring it: every exit -- or every successful exit -- has released the parameter, "
+             "stored it into a field that the program releases, or handed it to such a function) is not released again by the caller: callers explored with callee outcomes forked into failed / succeeded")
+    import consumed
+    ncs, cfound = consumed.run(chk, P, ["distances.c", "topology-xml.c"])
+    chk.floor("R-CONSUMED", "call sites of ownership-taking functions", ncs, 6)
+    chk.floor("R-CONSUMED", "ownership-taking functions discovered", len(cfound), 2)
+    chk.decided += ['arrays handed to a function that takes ownership of them (hwloc_internal_distances_add: attached on success, freed on failure) are not freed again by the caller',
+                    'objs, indexes, different_types and values are compacted together when objects disappear',
                     'a distances handle is not used again after a backend call that released it failed',
                     "an invalid depth (hwloc_get_depth_type failure) is rejected with EINVAL before anything is removed or returned",
                     "invalid kinds / unknown flags rejected with EINVAL before any effect (all words)", "*nr reports the number of matches even when the array is smaller (capacity dataflow)",
